@@ -43,7 +43,7 @@ func round3Rules() []*Rule {
 		{ID: "CONV-exact", Props: []string{"C18"}, Min: 2,
 			Doc: "text → integer: the exact strconv.ParseInt(s, 10, 64) is tried first and its value returned when it succeeds; ParseFloat (53-bit mantissa) is only the fallback",
 			Run: runConvExact},
-		{ID: "NEWCT", Props: []string{"C10", "C02", "C03"}, Min: 4,
+		{ID: "NEWCT", Props: []string{"C10", "C02", "C03", "C01"}, Min: 4,
 			Doc: "column constraints become the right keys: a column-level PRIMARY KEY is indexed (or, WITHOUT ROWID, made the key) on that column with the column's collation and the direction written on it; a column-level UNIQUE on that column, the column's collation, ascending",
 			Run: runNewCT},
 		{ID: "DRV-10", Props: []string{"C08", "C19"}, Min: 2,
